@@ -423,6 +423,23 @@ func ruleTabUnary(c *Ctx, r *R) {
 			minPost = rows[k].Lbp
 		}
 	}
+	// the spread of a final argument, f(x...), applies to the whole argument expression: it
+	// binds looser than every binary operator and tighter than the list comma
+	if row := rows["..."]; row != nil && row.HasLbp {
+		minBin := int64(1 << 40)
+		for _, op := range ops {
+			if rows[op] != nil && rows[op].HasLbp && rows[op].Lbp < minBin {
+				minBin = rows[op].Lbp
+			}
+		}
+		comma := int64(-1)
+		if rows[","] != nil && rows[","].HasLbp {
+			comma = rows[","].Lbp
+		}
+		r.check(row.Lbp < minBin && row.Lbp > comma, "spread", c.Pos(row.Node),
+			fmt.Sprintf("`...` binds at %d: above the comma (%d), below every binary operator (min %d)", row.Lbp, comma, minBin),
+			fmt.Sprintf("`...` binds at %d, not between the comma (%d) and the loosest binary operator (%d): append(b, s+t...) spreads only t and adds the spread to s instead of spreading s+t", row.Lbp, comma, minBin))
+	}
 	// Go's unary operators that have a prefix handler in the table
 	for _, op := range []string{"-", "+", "!", "^", "*", "&", "<-"} {
 		row := rows[op]
